@@ -56,7 +56,13 @@ def classify(res, exp):
         faulted = False       # a halted executable may end through abort(): the exit class is what counts
     if faulted and res["phase"] != "link":
         sig = "Bug" if "Bug:" in both else ("Program fault" if "Program fault" in both else "signal %d" % -res["rc"])
-        return ("fault", "%s in %s" % (sig, res["phase"]))
+        what = ""
+        if "Bug:" in both:
+            # the text of the internal-bug report (numbers removed) tells the defects apart
+            lines = [l.strip() for l in both[both.index("Bug:") + 4:].split("\n") if l.strip()]
+            if lines:
+                what = ": " + re.sub(r"\d+", "N", lines[0])[:60]
+        return ("fault", "%s in %s%s" % (sig, res["phase"], what))
     if res["phase"] in ("compile", "interp") and not got_ok and re.search(r"\((?:Fatal )?Error\)", both) \
             and re.search(r'^"[^"]*", line \d+:|\[L\d+ C\d+\]', both, re.M):
         return ("compile-reject", first_error(both))
@@ -162,8 +168,27 @@ class Family(object):
         self.replayable = [p for p in progs if exp[p["id"]]["status"] in ("done", "halt", "uncaught")]
 
 
-def replay(chk, build, fam, routes, workdir, prop=None, reduce_budget=0):
-    """routes: list of (label, route, qlevel, extra_args).  Compares every (program, route) run with fam.exp."""
+def observation(res, cls, group_compile_failed, group_compile_timeout=False):
+    """What an agreement property (C03) compares between routes: the program's output and exit class, or the fact that the
+    compiler produced nothing to run.  The one-step interpreter route reports a compiler failure in phase 'interp'; it is
+    recognised through its sibling routes of the same level."""
+    if res.get("timeout"):
+        return ("timeout", "compile" if res["phase"] == "compile" or group_compile_timeout else "run")
+    if res["phase"] == "compile":
+        return ("compile-failed",)
+    if group_compile_failed and cls is not None and cls[0] in ("fault", "compile-reject") and res["phase"] == "interp" \
+            and ("Compiler bug" in res["out"] + res["err"] or "(Error)" in res["out"] + res["err"]
+                 or "Program fault" in res["out"] + res["err"]):
+        return ("compile-failed",)
+    return (program_output(res), res["rc"] == 0)
+
+
+def replay(chk, build, fam, routes, workdir, prop=None, reduce_budget=0, agree_group=None):
+    """routes: list of (label, route, qlevel, extra_args).  Compares every (program, route) run with fam.exp.
+    agree_group: optional function label -> group name, for properties that demand agreement BETWEEN routes (C03): the runs
+    of one program in one group that all give the same observation are not reported even when that observation is not the
+    specified one (the deviation is common to the routes: another property's subject); they are tallied under
+    per_route["<agree>"]."""
     jobs = []
     meta = []
     for p in fam.replayable:
@@ -173,6 +198,24 @@ def replay(chk, build, fam, routes, workdir, prop=None, reduce_budget=0):
     results = progrun.run_many(build, jobs, workdir)
     nbad = 0
     per_route = {}
+    common = {}
+    if agree_group is not None:
+        groups = {}
+        for (p, label), r in zip(meta, results):
+            groups.setdefault((p["id"], agree_group(label)), []).append((label, r, classify(r, fam.exp[p["id"]])))
+        for gk, runs in groups.items():
+            if all(c is None for (_, _, c) in runs) or len(runs) < 2:
+                continue
+            cf = any(r["phase"] == "compile" and not r.get("timeout") for (_, r, _) in runs)
+            ct = any(r["phase"] == "compile" and r.get("timeout") for (_, r, _) in runs)
+            obs = set(observation(r, c, cf, ct) for (_, r, c) in runs)
+            if len(obs) == 1:
+                common[gk] = sorted(set(c[0] for (_, _, c) in runs if c))
+    agree = per_route.setdefault("<agree>", {"groups_off_spec_but_agreeing": 0, "examples": []}) if agree_group is not None else None
+    for gk, kinds in sorted(common.items()):
+        agree["groups_off_spec_but_agreeing"] += 1
+        if len(agree["examples"]) < 10:
+            agree["examples"].append({"program": gk[0], "group": gk[1], "kinds": kinds})
     for (p, label), (pp, route, q, xa), r in zip(meta, jobs, results):
         e = fam.exp[p["id"]]
         c = classify(r, e)
@@ -180,6 +223,8 @@ def replay(chk, build, fam, routes, workdir, prop=None, reduce_budget=0):
         st = per_route.setdefault(label, {"runs": 0, "bad": 0})
         st["runs"] += 1
         if c is None:
+            continue
+        if agree_group is not None and (p["id"], agree_group(label)) in common:
             continue
         st["bad"] += 1
         nbad += 1
